@@ -403,8 +403,45 @@ class AutorefMachine(Machine):
     def step_invariant(self, st):
         self._invariant(st, shutdown=False)
 
+    def _wrapper_queries(self, bdd, f, mask):
+        """pick / pick_iter (also abandoned half way) / count / support / to_expr of the
+        dd.autoref manager, compared with the model."""
+        U = self.U
+        sup = U.support(mask)
+        nm = U.count(mask) >> (U.m - len(sup))
+        if set(bdd.support(f)) != sup:
+            raise Violation('autoref support(u) is not the set of variables u depends on')
+        if bdd.count(f) != nm or bdd.count(f, len(sup) + 1) != 2 * nm:
+            raise Violation('autoref count(u) is not the number of models')
+        p = bdd.pick(f)
+        if (p is None) != (mask == 0):
+            raise Violation('autoref pick(u) is None exactly for false is violated')
+        if p is not None and (U.cube_mask(p) & ~mask & U.full or set(p) != sup):
+            raise Violation('autoref pick(u) is not a model over the support')
+        it = bdd.pick_iter(f)
+        first = next(iter(it), None)
+        del it          # abandoned after one model
+        if (first is None) != (mask == 0):
+            raise Violation('autoref pick_iter(u) is empty exactly for false is violated')
+        cover = 0
+        k = 0
+        for q in bdd.pick_iter(f, care_vars=set(self.names)):
+            cm = U.cube_mask(q)
+            if cm & cover or set(q) != set(self.names):
+                raise Violation('autoref pick_iter(u, care_vars) repeats or misses a variable')
+            cover |= cm
+            k += 1
+        if cover != mask:
+            raise Violation('autoref pick_iter(u, care_vars) does not cover exactly the models')
+        if not isinstance(bdd.to_expr(f), str) or f.to_expr() != bdd.to_expr(f):
+            raise Violation('to_expr of the manager and of the Function differ')
+
     def _invariant(self, st, shutdown=True):
         U = self.U
+        # queries through the WRAPPER first (pure: they create nothing), so that a reference
+        # they take and do not give back shows in the exact counts judged right below
+        for f, mask in zip(st.fns, st.masks):
+            self._wrapper_queries(st.bdd, f, mask)
         ext = {}
         for f in st.fns:
             ext[abs(f.node)] = ext.get(abs(f.node), 0) + 1
